@@ -1,4 +1,5 @@
 import MdsVerif.Proofs.Lock
+import MdsVerif.Proofs.LockRT
 import MdsVerif.Model.Cache
 import MdsVerif.Gen.CacheLock
 /-!
@@ -39,6 +40,29 @@ theorem C09_lock_linearizable {σ Loc Op Res : Type} (prog : Op → Body σ Loc 
     (∀ t op r, c.ph t = .done op r → (t, op, r) ∈ c.log) := by
   have inv := reach_inv prog s0 c h
   exact ⟨inv.logok, fun hl => (inv.free hl).1, inv.results⟩
+
+/-- **real-time order**: along every execution (every `Reach`able configuration has such a trace,
+`Reach.toLReach`), with `inv`/`resp` the events a client observes and `lin` the release of the lock:
+(1) the lock-acquisition-order log is exactly the sequence of linearization events;
+(2) every thread's events form a prefix of `(inv · lin · resp)*` with matching operation and result, i.e. each
+call takes effect between its invocation and its response;
+(3) in particular every response is preceded by its own linearization point — so a call that responded before
+another was invoked precedes it in the log: the explaining sequential order respects real-time order. -/
+theorem C09_realtime {σ Loc Op Res : Type} (prog : Op → Body σ Loc Res) (s0 : σ)
+    (evs : List (Ev Op Res)) (c : Conf σ Loc Op Res) (h : LReach prog (initConf s0) evs c) :
+    c.log = lins evs ∧
+    (∀ t, Run t (.idle : CallSt Op Res) evs (phaseSt (c.ph t))) ∧
+    (∀ t op r pre post, evs = pre ++ .resp t op r :: post →
+      ∃ p1 p2, pre = p1 ++ .lin t op r :: p2 ∧ ∀ e ∈ p2, e.tid ≠ t) := by
+  obtain ⟨h1, h2⟩ := lreach_trace prog s0 evs c h
+  refine ⟨h1, h2, fun t op r pre post he => ?_⟩
+  rcases (h2 t).resp_after_lin pre post op r he with ⟨hs, _⟩ | h3
+  · cases hs
+  · exact h3
+
+theorem C09_every_execution_has_a_trace {σ Loc Op Res : Type} (prog : Op → Body σ Loc Res) (s0 : σ)
+    (c : Conf σ Loc Op Res) (h : Reach prog (initConf s0) c) : ∃ evs, LReach prog (initConf s0) evs c :=
+  Reach.toLReach prog h
 
 /-- the cache methods as bodies over the sequential model of C08 (one micro-step each; the theorem above
 holds for any finer decomposition with the same atomic meaning) -/
